@@ -274,3 +274,92 @@ fn set_value<const N: usize>() {
 fn c15_set_value_int_3() {
     set_value::<3>();
 }
+
+// ---- C08: writeMemory with a hostile memoryReference / offset -------------------------------------------------
+static mut HOSTILE_BASE: usize = 0;
+fn stub_parse_reference(_reference: &str) -> anyhow::Result<usize> {
+    Ok(unsafe { HOSTILE_BASE })
+}
+/// nothing is mapped outside the 32-byte window: peeks and pokes fail there (checked arithmetic: the address may be anywhere)
+fn stub_read_memory_anywhere(_this: &debugger::Debugger, addr: usize, n: usize) -> Result<Vec<u8>, debugger::Error> {
+    let inside = addr >= BASE && n <= 8 && addr - BASE <= MEM_LEN - n;
+    if !inside {
+        return Err(debugger::Error::ProcessNotStarted);
+    }
+    stub_read_memory(_this, addr, n)
+}
+fn stub_write_memory_anywhere(_this: &debugger::Debugger, addr: usize, value: usize) -> Result<(), debugger::Error> {
+    let inside = addr >= BASE && addr - BASE <= MEM_LEN - 8;
+    if !inside {
+        return Err(debugger::Error::ProcessNotStarted);
+    }
+    stub_write_memory(_this, addr, value)
+}
+fn empty_string(_a: std::fmt::Arguments<'_>) -> String {
+    String::new()
+}
+
+//@ harness: c08_write_memory_hostile_address
+//@ property: C08
+//@ obligation: C08 DAP numerics
+//@ tier: quick
+//@ encodes: parse_memory_reference_with_offset composed with write_bytes exactly as handle_write_memory composes them
+//@ symbolic: the parsed memoryReference (full usize), the offset (full i64), two data bytes, 32 bytes of mapped memory
+//@ bounds: n = 2 data bytes (instance: may straddle a word boundary); loops as c15_write_exact_2
+//@ oracle: for every reference and offset the request ends in Ok or Err - no arithmetic overflow, no panic (every check CBMC generates in the reachable repository code is an obligation); Ok is reported only when both bytes really are in memory at reference + offset; an address with nothing mapped is an error
+//@ stubs: parse_memory_reference -> arbitrary usize (text parsing: c15_memory_reference_text_2); Debugger::read_memory / write_memory -> 32-byte window, error elsewhere; Backtrace::capture -> disabled; alloc::fmt::format -> empty
+//@ outside: base64 decoding, the JSON envelope, data longer than 2 bytes
+//@ unwindset: write_bytes=4; ?stub_read_memory=10; ?stub_write_memory=10; ?Debugger::read_memory=10; ?Debugger::write_memory=10; c08_write_memory_hostile_address=34
+//@ timeout: 1200
+#[kani::proof]
+#[kani::stub(super::super::parse_memory_reference, stub_parse_reference)]
+#[kani::stub(debugger::Debugger::read_memory, stub_read_memory_anywhere)]
+#[kani::stub(debugger::Debugger::write_memory, stub_write_memory_anywhere)]
+#[kani::stub(std::backtrace::Backtrace::capture, no_backtrace)]
+#[kani::stub(alloc::fmt::format, empty_string)]
+#[kani::unwind(10)]
+fn c08_write_memory_hostile_address() {
+    let init: [u8; MEM_LEN] = kani::any();
+    unsafe {
+        MEM = init;
+        WRITES = 0;
+        WRITE_FAIL_AT = 0;
+        HOSTILE_BASE = kani::any();
+    }
+    let offset: i64 = kani::any();
+    let data: [u8; 2] = kani::any();
+    let fake = MaybeUninit::<debugger::Debugger>::uninit();
+    let dbg: &debugger::Debugger = unsafe { &*fake.as_ptr() };
+    let sum = unsafe { HOSTILE_BASE } as i128 + offset as i128;
+    // handle_write_memory: addr = parse_memory_reference_with_offset(..)?; write_bytes(dbg, addr, &bytes)?
+    let mut wrote = false;
+    let addr = super::super::parse_memory_reference_with_offset("x", offset);
+    if let Ok(a) = &addr {
+        let r = write_bytes(dbg, *a, &data);
+        wrote = r.is_ok();
+        std::mem::forget(r);
+    }
+    if wrote {
+        let lo = BASE as i128;
+        bsv!(sum >= lo && sum + 2 <= lo + MEM_LEN as i128, "success is reported only for an address where memory exists");
+        if sum >= lo && sum + 2 <= lo + MEM_LEN as i128 {
+            let off = (sum - lo) as usize;
+            let m = unsafe { MEM };
+            bsv!(m[off] == data[0] && m[off + 1] == data[1], "success is reported only when the bytes were really written at reference + offset");
+        }
+    } else {
+        let m = unsafe { MEM };
+        let mut i = 0;
+        let mut same = true;
+        while i < MEM_LEN {
+            same &= m[i] == init[i];
+            i += 1;
+        }
+        bsv!(same || sum >= BASE as i128 - 1, "a refused write far from mapped memory changes nothing");
+    }
+    kani::cover!(wrote && offset < 0, "write through a negative offset");
+    kani::cover!(!wrote && addr.is_ok(), "well-formed address with nothing mapped: error from the write");
+    kani::cover!(addr.is_err() && sum > i64::MAX as i128, "address beyond the representable range refused");
+    std::mem::forget(addr);
+    kani::cover!(true, "BSV-END");
+}
